@@ -9,6 +9,7 @@ import (
 	"math/rand/v2"
 	"os"
 	"path/filepath"
+	"sort"
 )
 
 var c06Formats = []string{"fasta", "fastq", "sam", "samh", "bed", "newick"}
@@ -32,7 +33,7 @@ func init() {
 			{Name: "files", TShards: 4, Run: c06Files},
 			{Name: "huge", QShards: 16, TShards: 16, Run: c06Huge},
 			{Name: "histories", QShards: 2, TShards: 6, Run: codecHistories(c06Formats...)},
-			{Name: "readerzoo", QShards: 2, TShards: 6, Run: c06ReaderZoo},
+			{Name: "readerzoo", QShards: 8, TShards: 10, Run: c06ReaderZoo},
 			{Name: "parallel", Race: true, TShards: 2, Run: c06Parallel},
 			{Name: "prefixes", Run: func(c *Ctx) {
 				for i, f := range c06Formats {
@@ -356,6 +357,30 @@ func gzipBytes(x []byte, level int) []byte {
 	return buf.Bytes()
 }
 
+// gzipMembers compresses x as several gzip members written one after the other
+// (what `cat a.gz b.gz > c.gz`, bgzip and parallel compressors produce): a valid
+// gzip file whose content is the concatenation. Members may be empty and carry
+// header fields.
+func gzipMembers(r *rand.Rand, x []byte) []byte {
+	var buf bytes.Buffer
+	n := 2 + r.IntN(3)
+	cuts := []int{0}
+	for i := 1; i < n; i++ {
+		cuts = append(cuts, r.IntN(len(x)+1))
+	}
+	cuts = append(cuts, len(x))
+	sort.Ints(cuts)
+	for i := 0; i+1 < len(cuts); i++ {
+		w, _ := gzip.NewWriterLevel(&buf, 1+r.IntN(9))
+		if r.IntN(3) == 0 {
+			w.Name, w.Comment, w.Extra = "lane.fastq", "member", []byte{1, 2, 3}
+		}
+		w.Write(x[cuts[i]:cuts[i+1]])
+		w.Close()
+	}
+	return buf.Bytes()
+}
+
 func c06Files(c *Ctx) {
 	per := c.N(20, 400)
 	dir, err := os.MkdirTemp("", "c06-files-")
@@ -396,6 +421,17 @@ func c06Files(c *Ctx) {
 					k.Failf("file-gz", "%s.File(*.gz) differs from Reader on the uncompressed bytes:\n File   %s\n Reader %s", f, traceString(got), traceString(ref))
 				}
 				k.Count("file_gz", 1)
+				{
+					multi := filepath.Join(dir, fmt.Sprintf("m%d%s.gz", k.Idx, cd.ext))
+					if os.WriteFile(multi, gzipMembers(r, x), 0o644) == nil {
+						got, over := collect(cd.file(multi), len(x)+8)
+						os.Remove(multi)
+						if over || !sameTrace(got, ref) {
+							k.Failf("file-gz", "%s.File on a *.gz file of several gzip members differs from Reader on the uncompressed bytes:\n File   %s\n Reader %s", f, traceString(got), traceString(ref))
+						}
+						k.Count("file_gz_multi_member", 1)
+					}
+				}
 				// The same two files reached by other names: a symbolic link, a chain of two links, a hard link, a path
 				// with "./", "//" and ".." in it, a name with blanks and non-ASCII letters, a read-only file. (Links to
 				// the compressed file keep the .gz ending, which is what tells File to decompress.)
@@ -612,7 +648,7 @@ func hugeLineText(r *rand.Rand, f string, n int) ([]byte, int) {
 // against chunked delivery, and the stream cut right after the long line with
 // the last bytes delivered with and without io.EOF.
 func c06Huge(c *Ctx) {
-	exps := []int{20, 24}
+	exps := []int{20, 22}
 	deltas := []int{-2, -1, 0, 1}
 	if c.Thorough {
 		exps = []int{17, 18, 19, 20, 21, 22, 23, 24, 25}
